@@ -159,7 +159,8 @@ Print Assumptions C10_exec_reorder_exists.
 Example C10_exec_example :
   exec_rt_ok exec_rt_rev /\
   (exec_reorder ex_x1 (exec_in_rev ex_x1) /\ ex_x1 <> exec_in_rev ex_x1 /\ exec_ids_faithful ex_nid ex_x1 /\
-   eout_shape (ex_xcanon ex_x1) = Some (1, [(1, 10, [10], 0%nat); (1, 10, [], 0%nat); (2, 1, [], 0%nat)], 0%nat)%N /\
+   (* the two agreed versions of report (1, 10) conflict and are dropped: repair of F76 *)
+   eout_shape (ex_xcanon ex_x1) = Some (1, [(2, 1, [], 0%nat)], 0%nat)%N /\
    ex_xcanon_rt exec_rt_rev (exec_in_rev ex_x1) = ex_xcanon ex_x1) /\
   (exec_reorder ex_x2 (exec_in_rev ex_x2) /\ exec_ids_faithful ex_nid ex_x2 /\
    eout_shape (ex_xcanon ex_x2) = Some (2, [(1, 10, [10], 1%nat); (1, 10, [], 1%nat); (2, 1, [], 1%nat)], 0%nat)%N /\
@@ -190,20 +191,23 @@ Theorem C10_exec_nonce_id_collision_refuted :
 Proof. exact exec_nonce_id_collision_refuted. Qed.
 Print Assumptions C10_exec_nonce_id_collision_refuted.
 
-(* 7b. unique sort keys (F29): consensus does not guarantee them — the round ex_x1 has two valid commit data with
-      one (source chain, range start) — and 7 does not need them: the stable sorts keep ties in GetValid order, which
-      is the id order.  If GetValid ranges in cache order instead (before the repair of F17), the same cache in two
-      range orders gives two outcomes exactly because the sort key is shared. *)
+(* 7b. unique sort keys (F29): consensus does not guarantee them - the merged observation of round ex_x1 has two valid
+      commit data with one (source chain, range start).  Since the repair of F76 getCommitReportsOutcome drops such
+      conflicting reports, so the pending list it produces has unique keys; before it (get_commit_reports_unfixed) both
+      stayed, and 7 did not need unique keys: the stable sorts keep ties in GetValid order, which is the id order.  If
+      GetValid ranges in cache order instead (before the repair of F17), the same cache in two range orders gave two
+      outcomes exactly because the sort key was shared. *)
 Theorem C10_exec_consensus_dupkey_example :
   exec_ids_faithful ex_nid ex_x1 /\
-  exists o, ex_xcanon ex_x1 = Ok o /\
-            ~ NoDup (map (fun cd => (ExecReport.c_src cd, ExecReport.c_start cd)) (eo_pending o)).
+  exists m, exec_merge_rt ex_nid exec_rt_id 1 9 (x_fchain ex_xcfg) ex_xaos = Ok m /\
+            ~ NoDup (map (fun cd => (ExecReport.c_src cd, ExecReport.c_start cd)) (get_commit_reports_unfixed m)) /\
+            NoDup (map (fun cd => (ExecReport.c_src cd, ExecReport.c_start cd)) (get_commit_reports m)).
 Proof. exact exec_consensus_dupkey_example. Qed.
 Print Assumptions C10_exec_consensus_dupkey_example.
 
 Theorem C10_exec_dupkey_refuted :
   let c := cache_of ec_id (citems 1 ex_xaos) in
-  let out := fun l => new_outcome 1 (get_commit_reports (mkEmerged [(1%N, l)] [] [] [] [])) [] in
+  let out := fun l => new_outcome 1 (get_commit_reports_unfixed (mkEmerged [(1%N, l)] [] [] [] [])) [] in
   Permutation c (rev c) /\ NoDup (map fst c) /\
   out (get_valid_unfixed 2 c) <> out (get_valid_unfixed 2 (rev c)) /\
   out (get_valid 2 c) = out (get_valid 2 (rev c)).
